@@ -300,12 +300,19 @@ func main() {
 			}
 		})
 	})
+	// value lengths x types x fill patterns; every type number; decimal magnitudes
+	var ls lengthStats
+	run("uri (value lengths x types x fills)", func() (int64, bool) { return uriLengthPhase(col, &us, &ls, thorough, deadline) })
+	run("uri (every type 1..65535 x 4 values)", func() (int64, bool) { return allTypesPhase(col, &us, &ls, deadline) })
+	run("uri+parse (decimal magnitudes)", func() (int64, bool) { return magnitudePhase(col, &ps, &us, &ls, deadline) })
 	for _, i := range []int{7, 8, 11, 12, 13, 14, 15, 0} {
 		c := comps128[2*16+i] // generic
 		n := oname{c, {0x32, []byte{1}}, {1, []byte{0xab}}}
 		checkNameURI(col, &us, 5<<60|3<<40|int64(i), n, "sample")
-		back, err := enc.NameFromStr(real(n, 0).String())
-		smp.of("uri", 8).Offer(fmt.Sprintf("[uri] %s -> String()=%q -> NameFromStr -> %s err=%v same=%v", n, real(n, 0).String(), fromReal(back), err, sameName(back, n)))
+		var back enc.Name
+		var str string
+		res := errOf(func() (e error) { str = real(n, 0).String(); back, e = enc.NameFromStr(str); return })
+		smp.of("uri", 8).Offer(fmt.Sprintf("[uri] %s -> String()=%q -> NameFromStr -> %s (%s) same=%v", n, str, fromReal(back), res, sameName(back, n)))
 	}
 
 	// ---------- parsers ----------
@@ -385,6 +392,15 @@ func main() {
 		})
 		return editCount.Load(), ok
 	})
+	run("parse (typed prefix x unit^n x wrappings)", func() (int64, bool) { return parseLengthPhase(col, &ps, &us, &ls, thorough, deadline) })
+	run("parse (type-number digit strings)", func() (int64, bool) { return typeDigitsPhase(col, &ps, &us, &ls, deadline) })
+	for _, l := range []int{32, 33} {
+		c := ocomp{1, filled(fills[2], l)}
+		s := realComp(c, 0).String()
+		var back enc.Component
+		res := errOf(func() (e error) { back, e = enc.ComponentFromStr(s); return })
+		smp.of("length", 2).Offer(fmt.Sprintf("[length] %d-byte digest component -> String()=%q -> ComponentFromStr -> %d bytes, %s, same=%v", l, s, len(back.Val), res, sameComp(back, c)))
+	}
 	smp.of("parse", 2).Offer(fmt.Sprintf("[parse] NameFromStr(%q) -> %v ; ComponentFromStr(%q) -> %v ; ComponentPatternFromStr(%q) -> %v",
 		"/a/%2", errOf(func() error { _, e := enc.NameFromStr("/a/%2"); return e }),
 		"v=1=2", errOf(func() error { _, e := enc.ComponentFromStr("v=1=2"); return e }),
@@ -422,6 +438,7 @@ func main() {
 		"uri_uncovered_names":            map[string]int64{"total": us.uncovered.Load(), "same": us.uncoveredSame.Load(), "different": us.uncoveredDiff.Load(), "error": us.uncoveredErr.Load()},
 		"parser_strings":                 ps.strings.Load(),
 		"parser_outcomes":                parserOutcomes(&ps),
+		"length_magnitude_type_families": ls.JSON(),
 		"hash_collisions_between_distinct_names": map[string]any{"core": collC, "wide": collW, "mid40_thorough_only": collM, "pairwise_observed": st.collisions.Load(), "example": collEx,
 			"note": "evidence only; the property requires equal names to hash equally, not injectivity"},
 		"hash_structural_collision": map[string]any{"a": x.String(), "b": y.String(), "collide": structural,
